@@ -12,6 +12,7 @@ import (
 	"testing"
 	"time"
 
+	"github.com/google/uuid"
 	"google.golang.org/grpc/codes"
 
 	"go.6river.tech/mmmbbb/actions"
@@ -53,7 +54,7 @@ func runWake(t *testing.T, tape *Tape, w *World, variant string, steps int, out 
 	r := newSetupRun(tape, w, "wake")
 	out.stats = r.Stats
 	defer func() { out.trace, out.probes, out.hashes = r.Trace, r.M.Probes, r.Hashes }()
-	scenario := tape.Intn(8)
+	scenario := tape.Intn(11)
 	if scenario >= 4 {
 		if v := r.cannedWake(scenario); v != nil {
 			out.v = v
@@ -162,9 +163,18 @@ func runWake(t *testing.T, tape *Tape, w *World, variant string, steps int, out 
 	usedKey := map[string]bool{}
 	for i := 0; i < nwr; i++ {
 		id := fmt.Sprintf("writer%d", i)
-		kind := tape.Intn(6)
+		kind := tape.Intn(8)
+		if kind >= 6 {
+			kind = []int{2, 7}[kind-6]
+		}
+		if actions.VerifStreamAckNack == nil && kind == 7 {
+			kind = 2
+		}
 		if i == 0 && r.hintWriter >= 0 && tape.Bool(80) {
 			kind = r.hintWriter
+		}
+		if kind == 6 && (r.M.Snaps[snapName(0)] == nil || r.M.LiveSub(subName(0)) == nil) {
+			kind = 3
 		}
 		switch kind {
 		case 0, 1: // publish
@@ -247,6 +257,51 @@ func runWake(t *testing.T, tape *Tape, w *World, variant string, steps int, out 
 				r.ev("%s Seek %s to the past -> %v", id, s.Name, code(err))
 				if err == nil {
 					pendingOps = append(pendingOps, doneOp{S.TaskCommit(id), func() *Violation { r.M.SeekTime(s, T, t0, t1); return nil }})
+				}
+			})
+		case 7: // nack through the streamer's ack+nack transaction (what a failed push produces):
+			// re-schedules with the back-off, or dead-letters a delivery whose attempts are used up
+			var ids []string
+			for id2, e := range r.M.AckIDs {
+				if e.Sub.Live && e.State == stOut {
+					ids = append(ids, id2)
+				}
+			}
+			sort.Strings(ids)
+			for j := len(ids) - 1; j > 0; j-- {
+				k := tape.Intn(j + 1)
+				ids[j], ids[k] = ids[k], ids[j]
+			}
+			if len(ids) > 4 {
+				ids = ids[:4]
+			}
+			var us []uuid.UUID
+			for _, x := range ids {
+				if u, err := uuid.Parse(x); err == nil {
+					us = append(us, u)
+				}
+			}
+			if len(us) == 0 || len(us) != len(ids) {
+				continue
+			}
+			c.spawn(id, func(ctx context.Context) {
+				t0 := time.Now()
+				err := actions.VerifStreamAckNack(ctx, w.Client, uuid.Nil, "nack", nil, us)
+				t1 := time.Now()
+				r.ev("%s stream Nack %s -> %v", id, r.descIDs(ids), err)
+				if err == nil {
+					pendingOps = append(pendingOps, doneOp{S.TaskCommit(id), func() *Violation { r.M.Nack(ids, t0, t1); return nil }})
+				}
+			})
+		case 6: // seek to a snapshot (may acknowledge an ordered predecessor)
+			s, sn := r.M.LiveSub(subName(0)), r.M.Snaps[snapName(0)]
+			c.spawn(id, func(ctx context.Context) {
+				t0 := time.Now()
+				_, err := w.Call(ctx, "Seek", &pubsubpb.SeekRequest{Subscription: s.Name, Target: &pubsubpb.SeekRequest_Snapshot{Snapshot: snapName(0)}})
+				t1 := time.Now()
+				r.ev("%s Seek %s to snapshot %s -> %v", id, s.Name, snapName(0), code(err))
+				if err == nil {
+					pendingOps = append(pendingOps, doneOp{S.TaskCommit(id), func() *Violation { r.M.SeekSnap(s, sn, t0, t1); return nil }})
 				}
 			})
 		case 5: // background dead-letter sweep (forwards into other topics)
@@ -530,6 +585,12 @@ func (r *Run) cannedWake(scenario int) *Violation {
 		r.hintWaitSub, r.hintWriter = subName(t.Intn(3)), 2
 	case 6:
 		r.hintWaitSub, r.hintWriter = subName(0), 3
+	case 8:
+		r.hintWaitSub, r.hintWriter = subName(0), 7
+	case 9:
+		r.hintWaitSub, r.hintWriter = subName(0), 5
+	case 10:
+		r.hintWaitSub, r.hintWriter = subName(0), 6
 	default:
 		r.hintWaitSub, r.hintWriter = subName(t.Intn(2)), 4
 	}
@@ -633,6 +694,58 @@ func (r *Run) cannedWake(scenario int) *Violation {
 			return v
 		}
 		return first(r.pullSub(r.M.LiveSub(subName(0)), false), r.pullSub(r.M.LiveSub(subName(1)), false))
+	case 8, 9: // ordered subscription whose leased (8) or lapsed (9) predecessor has used up its
+		// attempts, dead-letter topic without subscribers: retiring it (nack / sweep) forwards
+		// nothing, but releases the successor
+		n := int32(1 + t.Intn(2))
+		if v := first(
+			r.xSub(0, 0, func(c *SubCfg, q *pubsubpb.Subscription) {
+				c.Ordered, q.EnableMessageOrdering = true, true
+				c.DLTopic, c.MaxAttempts = r.M.LiveTopic(topicName(1)), n
+				q.DeadLetterPolicy = &pubsubpb.DeadLetterPolicy{DeadLetterTopic: topicName(1), MaxDeliveryAttempts: n}
+			}),
+			r.xSub(1, 0, nil),
+			r.xPublish(0, nil, "K1"),
+			r.xPublish(0, nil, "K1"),
+		); v != nil {
+			return v
+		}
+		for k := int32(0); k < n; k++ {
+			if v := r.pullSub(r.M.LiveSub(subName(0)), false); v != nil {
+				return v
+			}
+			if k < n-1 || scenario == 9 {
+				time.Sleep(3 * time.Minute)
+				S.Settle()
+			}
+		}
+		return r.pullSub(r.M.LiveSub(subName(1)), false)
+	case 10: // ordered subscription: the predecessor is acknowledged in a snapshot, re-opened by a
+		// seek to the past and leased again; seeking to the snapshot acknowledges it (and
+		// nothing else changes), which releases the successor
+		if v := first(
+			r.xSub(0, 0, func(c *SubCfg, q *pubsubpb.Subscription) { c.Ordered, q.EnableMessageOrdering = true, true }),
+			r.xSub(1, 0, nil),
+			r.xPublish(0, nil, "K1"),
+			r.xPublish(0, nil, "K1"),
+		); v != nil {
+			return v
+		}
+		s0 := r.M.LiveSub(subName(0))
+		if v := r.pullSub(s0, true); v != nil { // m1 delivered and acknowledged, m2 still blocked or not yet pulled
+			return v
+		}
+		if v := r.doSnapshot(0, 0); v != nil {
+			return v
+		}
+		T := epoch.Add(-time.Hour)
+		_, res := r.do("Seek", &pubsubpb.SeekRequest{Subscription: s0.Name, Target: &pubsubpb.SeekRequest_Time{Time: timestamppbNew(T)}})
+		r.ev("Seek %s to the past -> %v", s0.Name, code(res.err))
+		if res.err != nil {
+			return r.expectCode("C13", "Seek(time) "+s0.Name, res, codes.OK)
+		}
+		r.M.SeekTime(s0, T, res.t0, res.t1)
+		return first(r.pullSub(s0, false), r.pullSub(r.M.LiveSub(subName(1)), false))
 	default: // everything acknowledged: only a seek (or a publish) brings something back
 		if v := first(
 			r.xSub(0, 0, nil),
